@@ -327,6 +327,26 @@ class Folder:
             pass
         elif isinstance(st, ast.Assert):
             pass
+        elif isinstance(st, ast.Delete):
+            for t in st.targets:
+                if isinstance(t, ast.Name) and t.id in env:
+                    del env[t.id]
+                elif isinstance(t, ast.Subscript):
+                    c = self.expr(t.value, env, mod, depth)
+                    k = self.expr(t.slice, env, mod, depth)
+                    if isinstance(c, (dict, list)):
+                        try:
+                            del c[k]
+                        except (KeyError, IndexError, TypeError):
+                            raise AnalysisError(
+                                f'folding: del of a missing element at '
+                                f'{mod.loc(t)}')
+                    else:
+                        raise AnalysisError(
+                            f'folding: del on {c!r} at {mod.loc(t)}')
+                else:
+                    raise AnalysisError(
+                        f'folding: del target {unparse(t)} at {mod.loc(t)}')
         else:
             raise AnalysisError(
                 f'folding: statement {type(st).__name__} at {mod.loc(st)} '
